@@ -68,22 +68,6 @@ ApplyFn(val, a) ==
 
 RepGet(rep, n) == IF rep.t = "o" /\ Has(rep.k, n) THEN rep.v[Idx(rep.k, n)] ELSE Absent
 
-\* projection of a field set from the universe (monolith) / from a representation (subgraph)
-RECURSIVE ProjD(_, _, _), ProjDV(_, _, _)
-ProjD(M, sel, o) ==
-  ObjV(Names(sel), [i \in DOMAIN sel |->
-         LET dv == FieldData(M, o, sel[i].name) IN IF sel[i].sel = <<>> THEN dv ELSE ProjDV(M, sel[i].sel, dv)])
-ProjDV(M, sel, dv) ==
-  CASE dv.t = "r" -> ProjD(M, sel, dv.v)
-    [] dv.t = "l" -> Lst([i \in DOMAIN dv.v |-> ProjDV(M, sel, dv.v[i])])
-    [] OTHER -> dv
-RECURSIVE ProjRep(_, _)
-ProjRep(sel, rv) ==
-  CASE rv.t = "o" -> ObjV(Names(sel), [i \in DOMAIN sel |->
-                        LET x == RepGet(rv, sel[i].name) IN IF sel[i].sel = <<>> THEN x ELSE ProjRep(sel[i].sel, x)])
-    [] rv.t = "l" -> Lst([i \in DOMAIN rv.v |-> ProjRep(sel, rv.v[i])])
-    [] OTHER -> rv
-
 \* digest of a tagged value (order of the field set, keys ignored): the value of a @requires field is a
 \* deterministic function of its inputs, so a missing or wrong input is visible in the response
 RECURSIVE Dig(_), DigSeq(_)
@@ -98,6 +82,32 @@ Dig(v) == CASE v.t = "n" -> "~"
             [] OTHER -> "!"
 DigSeq(s) == IF s = <<>> THEN "" ELSE Dig(Head(s)) \o (IF Len(s) > 1 THEN "," ELSE "") \o DigSeq(Tail(s))
 ReqValue(fn, inputs) == Str(fn \o ":" \o Dig(inputs))
+
+\* projection of a field set from the universe (monolith) / from a representation (subgraph)
+\* (a required field may itself be @requires-computed -- a requires CHAIN: its value is derived, not stored)
+RECURSIVE ProjD(_, _, _), ProjDV(_, _, _), DataOrDerived(_, _, _)
+DataOrDerived(M, o, fn) ==
+  LET tn == ObjType(M, o)
+  IN IF HasField(M.types, tn, fn) /\ FieldOf(M.types, tn, fn).req # <<>>
+     THEN ReqValue(fn, ProjD(M, FieldOf(M.types, tn, fn).req, o))
+     ELSE FieldData(M, o, fn)
+\* (a field-set entry may carry literal arguments: @requires(fields: "price(cur: \"EUR\")"))
+FsArg(fs, n) == IF HasName(fs.args, n) THEN ValOf([vars |-> <<>>], ByName(fs.args, n).val) ELSE Absent
+ProjD(M, sel, o) ==
+  ObjV(Names(sel), [i \in DOMAIN sel |->
+         LET raw == DataOrDerived(M, o, sel[i].name)
+             dv == IF raw.t = "fn" THEN ApplyFn(raw, FsArg(sel[i], raw.a)) ELSE raw
+         IN IF sel[i].sel = <<>> THEN dv ELSE ProjDV(M, sel[i].sel, dv)])
+ProjDV(M, sel, dv) ==
+  CASE dv.t = "r" -> ProjD(M, sel, dv.v)
+    [] dv.t = "l" -> Lst([i \in DOMAIN dv.v |-> ProjDV(M, sel, dv.v[i])])
+    [] OTHER -> dv
+RECURSIVE ProjRep(_, _)
+ProjRep(sel, rv) ==
+  CASE rv.t = "o" -> ObjV(Names(sel), [i \in DOMAIN sel |->
+                        LET x == RepGet(rv, sel[i].name) IN IF sel[i].sel = <<>> THEN x ELSE ProjRep(sel[i].sel, x)])
+    [] rv.t = "l" -> Lst([i \in DOMAIN rv.v |-> ProjRep(sel, rv.v[i])])
+    [] OTHER -> rv
 
 \* ------------------------------------------------------------------ _entities
 RECURSIVE MatchSel(_, _, _, _)
@@ -302,7 +312,13 @@ RequestOK(M, doc, vars) ==
   IN SelOK(C, RootType(doc), doc.sel, <<>>) /\ EntitiesOK(C, doc.sel)
 
 \* ------------------------------------------------------------------ consistent data universes
-\* the universes the property quantifies over: typed references, unique keys, key / @requires inputs non-null
+\* "Consistent" = the universes the property quantifies over, a TLC-checked predicate on EVERY catalog universe:
+\*   WellTyped      objects have object types of the supergraph and only fields of their type
+\*   UniqueKeys     no two objects of a type agree on a key of any subgraph
+\*   KeysPresent    key fields are never null
+\*   InputsClean    an object from which a @requires input is read has no null in a non-null position (a subgraph's
+\*                  own null propagation would wipe the input: no batching gateway could answer like the monolith)
+\*   OwnersAgree    every owner of a shared field returns the same value (u.over = per-subgraph deviations)
 WellTyped(types, u) ==
   /\ "Q" \in DOMAIN u.objs /\ u.objs["Q"].type = "Query"
   /\ IsType(types, "Mutation") => ("M" \in DOMAIN u.objs /\ u.objs["M"].type = "Mutation")
@@ -316,4 +332,35 @@ UniqueKeys(sgs, types, u) ==
          M == Mono(types, u)
      IN \A o, p \in DOMAIN u.objs :
            (o # p /\ u.objs[o].type = tn /\ u.objs[p].type = tn) => ProjD(M, sel, o) # ProjD(M, sel, p)
+RECURSIVE NoNullLeaf(_)
+NoNullLeaf(v) == CASE v.t = "n" -> FALSE
+                   [] v.t \in {"o", "l"} -> \A i \in DOMAIN v.v : NoNullLeaf(v.v[i])
+                   [] OTHER -> TRUE
+KeysPresent(sgs, types, u) ==
+  \A i \in DOMAIN sgs : \A a \in DOMAIN sgs[i].types : \A k \in DOMAIN sgs[i].types[a].keys :
+     \A o \in DOMAIN u.objs :
+        u.objs[o].type = sgs[i].types[a].name => NoNullLeaf(ProjD(Mono(types, u), sgs[i].types[a].keys[k].sel, o))
+HasNonNullViolation(types, u, o) ==
+  LET td == TypeOf(types, u.objs[o].type)
+  IN \E i \in DOMAIN td.fields :
+        /\ td.fields[i].req = <<>>
+        /\ td.fields[i].type.w # <<>> /\ Head(td.fields[i].type.w) = "N"
+        /\ FieldData(Mono(types, u), o, td.fields[i].name).t = "n"
+RECURSIVE ProvidersSel(_, _, _), ProvidersOf(_, _, _)
+ProvidersOf(M, sel, dv) ==
+  CASE dv.t = "r" -> IF ObjExists(M, dv.v) THEN ProvidersSel(M, sel, dv.v) ELSE {}
+    [] dv.t = "l" -> UNION {ProvidersOf(M, sel, dv.v[i]) : i \in DOMAIN dv.v}
+    [] OTHER -> {}
+ProvidersSel(M, sel, o) ==
+  {o} \cup UNION {IF sel[i].sel # <<>> THEN ProvidersOf(M, sel[i].sel, FieldData(M, o, sel[i].name)) ELSE {} : i \in DOMAIN sel}
+InputsClean(types, u) ==
+  \A o \in DOMAIN u.objs :
+     LET td == TypeOf(types, u.objs[o].type)
+     IN \A i \in DOMAIN td.fields :
+           td.fields[i].req # <<>> =>
+              \A p \in ProvidersSel(Mono(types, u), td.fields[i].req, o) : ~HasNonNullViolation(types, u, p)
+OwnersAgree(types, u) ==
+  \A i \in DOMAIN u.over : u.over[i].o \in DOMAIN u.objs /\ u.over[i].v = FieldData(Mono(types, u), u.over[i].o, u.over[i].f)
+Consistent(sgs, types, u) ==
+  /\ WellTyped(types, u) /\ UniqueKeys(sgs, types, u) /\ KeysPresent(sgs, types, u) /\ InputsClean(types, u) /\ OwnersAgree(types, u)
 =============================================================================
